@@ -39,20 +39,25 @@ static double boundOf (const std::string& what)
         {"extractQuat", 16},              // extractQuat(toMatrix44 q) = +-q
         {"axis-angle-roundtrip", 16},     // setAxisAngle(axis(), angle()) = q
         {"setAxisAngle-quat-vs-matrix", 16},
-        {"exp-log", 32},                  // exp(log q) = q, real part >= -0.9
+        {"setAxisAngle-exact", 16},       // Quat / Matrix44::setAxisAngle vs Rodrigues with the axis normalised in long double (incl. tiny axes whose length2 underflows)
+        {"exp-log", 32},                  // exp(log q) = q for every real part > -1 + 64 eps; scale 1/sin^2(theta) for r < 0 (|q|^2 = 1 + O(eps) enters through sin(acos r) vs |v|)
+        {"exp-log-formula", 32},          // the code vs the same formulas (exp o log at the float input) in long double; scale 1/sin(theta) for r < 0
         {"setRotation-unit", 8},          // | |q| - 1 |
         {"setRotation-carries", 16},      // rotateVector(q, from^) vs to^
         {"rotationMatrix-carries", 16},   // from^ * rotationMatrix vs to^
         {"setRotation-opposite-lattice", 16}, // to = -m * from on the integer lattice (exactly opposite): unit and carried
         {"setRotation-axis", 8},          // axis stays orthogonal to from and to (angle not within 1e-3 of 0 or pi)
+        {"setRotation-path-decision", 0}, // the path taken is the one the documented guard |f0+t0|^2 > (8 eps)^2 prescribes (err 0 or inf)
+        {"setRotation-guard-sweep", 16},  // |f0+t0| in {4,7.x,8.x,16} eps: unit and carried
         {"slerp-unit", 8},
+        {"slerp-near-antipodal", 8},      // theta = pi - 1e-7..1e-15 and q2 = -q1 bitwise: result finite and unit (nothing else is required there)
         {"slerp-angle-linear", 16},       // |angle(q1, slerp(t)) - |t| theta| (scale 1/(pi - theta) beyond 90 degrees)
         {"slerp-in-plane", 8},            // component of slerp(t) orthogonal to span(q1,q2)
         {"slerp-endpoints", 8},
         {"slerpShortestArc-angle", 8},    // angle(q1, r(t)) = t * theta', theta' <= pi/2
         {"squad-keys", 8},
         {"spline-keys", 8},
-        {"spline-tangent", 1},            // double only: one-sided 2nd-order finite differences at the joint, scale = 1e-5
+        {"spline-tangent", 1},            // Richardson-extrapolated one-sided differences at the joint (two step sizes); scale = tol * speed, tol = 5e-9 (double) / 1e-2 (float)
     };
     auto it = B.find (what);
     return it == B.end () ? 0 : it->second;
@@ -203,12 +208,43 @@ template <class T> static void unitQuatChecks (int i)
         r.setAxisAngle (q.axis (), q.angle ());
         check<T> ("axis-angle-roundtrip", qdistpm (toL (r), toL (q)), 1, in);
     }
-    // --- exp (log q) = q unless the real part is close to -1
+    // --- exp (log q) = q unless the real part is close to -1  ("close" = within 64 eps of -1; there only NaN-freeness)
     {
-        Quat<T> e = q.log ().exp ();
+        Quat<T> lg = q.log ();
+        Quat<T> e = lg.exp ();
         bool nan = !(e.r == e.r && e.v.x == e.v.x && e.v.y == e.v.y && e.v.z == e.v.z);
-        if (q.r >= (T) -0.9) check<T> ("exp-log", nan ? (L) INFINITY : qdist (toL (e), toL (q)), 1, in);
-        else { hits["exp-log:real-part-below--0.9 (only NaN-freeness required)"]++; if (nan) check<T> ("exp-log", (L) INFINITY, 1, in + " NaN"); }
+        L eps = (L) std::numeric_limits<T>::epsilon ();
+        // branch hits of log / exp (mirrors of the code's own tests)
+        {
+            T theta = std::acos (std::min (q.r, (T) 1.0));
+            if (theta == 0) hits["log-branch:theta==0"]++;
+            else
+            {
+                T st = std::sin (theta);
+                if (std::abs (st) < 1 && std::abs (theta) >= std::numeric_limits<T>::max () * std::abs (st)) hits["log-branch:guard(k=1)"]++;
+                else hits["log-branch:theta/sin(theta)"]++;
+            }
+            T th2 = lg.v.length (), s2 = std::sin (th2);
+            if (std::abs (th2) < 1 && std::abs (s2) >= std::numeric_limits<T>::max () * std::abs (th2)) hits["exp-branch:guard(k=1,theta==0)"]++;
+            else hits["exp-branch:sin(theta)/theta"]++;
+        }
+        if ((L) q.r > -1 + 64 * eps)
+        {
+            // the same formulas at the float input, in long double
+            L rr = (L) q.r, thc = acosl (std::min (rr, (L) 1));
+            LQ ref;
+            if (thc == 0) ref = LQ{1, (L) q.v.x, (L) q.v.y, (L) q.v.z}; // log = (0, v), |v| = O(sqrt eps): exp of it
+            L k = thc == 0 ? 1 : thc / sinl (thc);
+            L px = (L) q.v.x * k, py = (L) q.v.y * k, pz = (L) q.v.z * k, th2 = sqrtl (px * px + py * py + pz * pz);
+            L k2 = th2 == 0 ? 1 : sinl (th2) / th2;
+            ref = LQ{cosl (th2), px * k2, py * k2, pz * k2};
+            L sn = sinl (thc);
+            L sc1 = (rr < 0 && sn > 0) ? 1 / sn : 1, sc2 = (rr < 0 && sn > 0) ? 1 / (sn * sn) : 1;
+            if (rr < -0.9L) hits["exp-log:real-part-in(-1+64eps,-0.9)"]++;
+            check<T> ("exp-log-formula", nan ? (L) INFINITY : qdist (toL (e), ref), sc1, in);
+            check<T> ("exp-log", nan ? (L) INFINITY : qdist (toL (e), toL (q)), sc2, in);
+        }
+        else { hits["exp-log:real-part-within-64eps-of--1 (only NaN-freeness required)"]++; if (nan) check<T> ("exp-log", (L) INFINITY, 1, in + " NaN"); }
     }
 }
 
@@ -226,20 +262,118 @@ template <class T> static void generalQuatChecks ()
     check<T> ("mul-inverse-identity", err, 1, "q=" + showQ (q));
 }
 
-template <class T> static void axisAngleChecks ()
+template <class T> static void axisAngleChecks (int i)
 {
-    L sc = powl (10.0L, (L) ((long) (rng () % 7) - 3));
+    // axis magnitude classes: ordinary (1e-3 .. 1e3) and TINY (length2 () underflows: Vec3::length () must take its lengthTiny path;
+    // `axis / sqrt (axis.length2 ())` would divide by zero there)
+    bool isF = sizeof (T) == 4;
+    bool tinyAxis = (i % 4 == 3);
+    // float 1e-20 .. 1e-36, double 1e-155 .. 1e-304: the squares underflow (to 0 or to a subnormal), the length itself is a NORMAL number.
+    // (Subnormal axes are not generated: there Vec3::normalized () divides by a subnormal length of a few bits and is inaccurate by
+    // construction -- that is C08's subject, not the axis-angle consistency.)
+    L sc = tinyAxis ? powl (10.0L, isF ? -(L) (20 + (long) (rng () % 17)) : -(L) (155 + (long) (rng () % 150))) 
+                    : powl (10.0L, (L) ((long) (rng () % 7) - 3));
     LV d = randDir ();
     Vec3<T> axis ((T) (d.x * sc), (T) (d.y * sc), (T) (d.z * sc));
+    if (axis.x == 0 && axis.y == 0 && axis.z == 0) return;
+    bool under = axis.length2 () < 2 * std::numeric_limits<T>::min ();
+    hits[under ? "axis-class:tiny(length2-underflows)" : (tinyAxis ? "axis-class:small" : "axis-class:ordinary")]++;
     int k = (int) (rng () % 4);
     L ang = k == 0 ? uni (-2 * PI, 2 * PI) : k == 1 ? powl (10.0L, -(L) (rng () % 10)) : k == 2 ? PI - powl (10.0L, -(L) (rng () % 10)) : uni (-PI, PI);
     T a = (T) ang;
     Quat<T> q; q.setAxisAngle (axis, a);
     Matrix44<T> A = q.toMatrix44 (), B; B.setAxisAngle (axis, a);
     L err = 0;
-    for (int r = 0; r < 4; ++r) for (int c = 0; c < 4; ++c) err = std::max (err, fabsl ((L) A[r][c] - (L) B[r][c]));
+    for (int r = 0; r < 4; ++r) for (int c = 0; c < 4; ++c) { L e = fabsl ((L) A[r][c] - (L) B[r][c]); err = (e == e) ? std::max (err, e) : (L) INFINITY; }
     char b[64]; snprintf (b, 64, " angle=%.17g", (double) a);
-    check<T> ("setAxisAngle-quat-vs-matrix", err, 1, "axis=" + showV (axis) + b);
+    std::string in = std::string (under ? "tiny-axis " : "") + "axis=" + showV (axis) + b;
+    std::string key = under ? "setAxisAngle:tiny-axis" : "";
+    check<T> ("setAxisAngle-quat-vs-matrix", err, 1, in, key);
+    // each against the exact rotation about the axis normalised in long double (scaled first: the squares of a tiny axis underflow in L too)
+    {
+        L m = std::max ({fabsl ((L) axis.x), fabsl ((L) axis.y), fabsl ((L) axis.z)});
+        LV n = vnorm (LV{(L) axis.x / m, (L) axis.y / m, (L) axis.z / m});
+        L al = (L) a, s = sinl (al), c = cosl (al);
+        L R[3][3] = {{n.x * n.x * (1 - c) + c, n.x * n.y * (1 - c) + n.z * s, n.x * n.z * (1 - c) - n.y * s},
+                     {n.x * n.y * (1 - c) - n.z * s, n.y * n.y * (1 - c) + c, n.y * n.z * (1 - c) + n.x * s},
+                     {n.x * n.z * (1 - c) + n.y * s, n.y * n.z * (1 - c) - n.x * s, n.z * n.z * (1 - c) + c}};
+        L e1 = 0;
+        for (int r = 0; r < 3; ++r) for (int cc = 0; cc < 3; ++cc) { L e = fabsl ((L) B[r][cc] - R[r][cc]); e1 = (e == e) ? std::max (e1, e) : (L) INFINITY; }
+        LQ qe{cosl (al / 2), n.x * sinl (al / 2), n.y * sinl (al / 2), n.z * sinl (al / 2)};
+        L e2 = qdist (toL (q), qe);
+        if (!(e2 == e2)) e2 = INFINITY;
+        check<T> ("setAxisAngle-exact", std::max (e1, e2), 1, in, key);
+    }
+}
+
+// ---- the path setRotation takes, from the code's own arithmetic and its documented guard
+//   0: f0.t0 >= 0 (one step)   1: split at the halfway vector (|f0+t0|^2 > (8 eps)^2)
+//   2: fallback because f0 + t0 == 0 exactly   3: fallback by the threshold with f0 + t0 != 0   4: split guard passed but normalized () == 0
+template <class T> static int classifyPath (const Vec3<T>& from, const Vec3<T>& to, T* h2out = nullptr)
+{
+    Vec3<T> f0 = from.normalized (), t0 = to.normalized ();
+    if ((f0 ^ t0) >= 0) return 0;
+    Vec3<T> h0 = f0 + t0;
+    const T tiny = T (8) * std::numeric_limits<T>::epsilon ();
+    T h2 = h0 ^ h0;
+    if (h2out) *h2out = h2;
+    if (h2 > tiny * tiny) { Vec3<T> hn = h0.normalized (); return (hn ^ hn) != 0 ? 1 : 4; }
+    return h2 == 0 ? 2 : 3;
+}
+static const char* pathName (int p)
+{
+    static const char* n[] = {"<=90", "split-at-halfway", "fallback:h0-exactly-zero", "fallback:threshold(h0!=0)", "fallback:normalized-h0-is-zero"};
+    return n[p];
+}
+// the fallback result is r = 0, v = (f0 % e_k).normalized (): recomputed here bit for bit.  If the guard says "fallback" the
+// code's result must be exactly that; if it says "split" the result must NOT have the fallback's form (r == 0 exactly and an
+// exactly-zero component of v: the split product has r ~ |f0+t0| / 2 and a generic axis).
+template <class T> static void checkDecision (const Vec3<T>& from, const Vec3<T>& to, const Quat<T>& q, int path, const std::string& in)
+{
+    if (path == 0) return;
+    Vec3<T> f0 = from.normalized ();
+    Vec3<T> f02 = f0 * f0, v;
+    if (f02.x <= f02.y && f02.x <= f02.z) v = (f0 % Vec3<T> (1, 0, 0)).normalized ();
+    else if (f02.y <= f02.z) v = (f0 % Vec3<T> (0, 1, 0)).normalized ();
+    else v = (f0 % Vec3<T> (0, 0, 1)).normalized ();
+    bool isFallbackResult = q.r == 0 && q.v.x == v.x && q.v.y == v.y && q.v.z == v.z;
+    bool wantFallback = path >= 2;
+    std::string key = std::string ("setRotation:path-decision:") + (wantFallback ? "guard-says-fallback" : "guard-says-split");
+    check<T> ("setRotation-path-decision", isFallbackResult == wantFallback ? (L) 0 : (L) INFINITY, 1,
+              in + " guard-path=" + pathName (path) + (isFallbackResult ? " result=fallback-form" : " result=not-fallback-form"), key);
+}
+
+// guard sweep: pairs whose |f0 + t0| (in the code's own arithmetic) lies just below / just above the threshold 8 eps, and at 4 / 16 eps
+template <class T> static void guardSweep (int n)
+{
+    L eps = (L) std::numeric_limits<T>::epsilon ();
+    static const L targets[] = {4, 7.5L, 8.5L, 16};
+    for (int it = 0; it < n; ++it)
+    {
+        LV f = randDir (), g = randDir ();
+        LV p{f.y * g.z - f.z * g.y, f.z * g.x - f.x * g.z, f.x * g.y - f.y * g.x};
+        if (vlen (p) < 1e-3L) continue;
+        p = vnorm (p);
+        L m = targets[it % 4] + uni (-0.4L, 0.4L), dl = m * eps;       // |f0 + t0| = 2 sin (dl / 2) ~ dl
+        L s2 = powl (2.0L, (L) ((long) (rng () % 5) - 2));
+        Vec3<T> from ((T) f.x, (T) f.y, (T) f.z);
+        Vec3<T> to ((T) ((-f.x * cosl (dl) + p.x * sinl (dl)) * s2), (T) ((-f.y * cosl (dl) + p.y * sinl (dl)) * s2), (T) ((-f.z * cosl (dl) + p.z * sinl (dl)) * s2));
+        T h2 = 0;
+        int path = classifyPath<T> (from, to, &h2);
+        if (path == 0) continue;
+        L hm = sqrtl ((L) h2) / eps; // |f0 + t0| / eps as the code sees it
+        const char* bucket = hm == 0 ? "0" : hm <= 6 ? "(0,6]eps" : hm <= 8 ? "(6,8]eps:just-below" : hm <= 10 ? "(8,10]eps:just-above" : hm <= 24 ? "(10,24]eps" : ">24eps";
+        hits[std::string ("guard-sweep:") + bucket + ":" + pathName (path)]++;
+        Quat<T> q; q.setRotation (from, to);
+        char b[96]; snprintf (b, 96, "guard-sweep |f0+t0|=%.4g eps ", (double) hm);
+        std::string in = std::string (b) + "from=" + showV (from) + " to=" + showV (to);
+        checkDecision<T> (from, to, q, path, in);
+        LQ ql = toL (q);
+        L n2 = ndot (ql, ql);
+        LV fh = vnorm (toLV (from)), thh = vnorm (toLV (to));
+        L err = !(n2 == n2) || n2 == 0 ? (L) INFINITY : std::max (fabsl (sqrtl (n2) - 1), vdist (lrot (lnorm (ql), fh), thh));
+        check<T> ("setRotation-guard-sweep", err, 1, in, "setRotation:guard-sweep");
+    }
 }
 
 //--------------------------------------------------------------------------------------------------
@@ -278,14 +412,13 @@ template <class T> static void setRotationChecks (int i)
     if (from.length2 () == 0 || to.length2 () == 0) return;
     hits[std::string ("direction-pair:") + cn]++;
     LV fh = vnorm (toLV (from)), thh = vnorm (toLV (to));
-    // which path does the code take (recomputed here with the same operations as setRotation)
-    {
-        Vec3<T> f0 = from.normalized (), t0 = to.normalized ();
-        if ((f0 ^ t0) >= 0) hits["setRotation-path:<=90"]++;
-        else { Vec3<T> h0 = (f0 + t0).normalized (); if ((h0 ^ h0) != 0) hits["setRotation-path:split-at-halfway"]++; else hits["setRotation-path:antipodal-fallback"]++; }
-    }
+    // which path does the code take: recomputed here with the same operations and the documented guard of setRotation
+    // (ImathQuat.h: h0 = f0 + t0; tiny = 8 eps; (h0 ^ h0) > tiny * tiny ? split : fallback)
+    int path = classifyPath<T> (from, to);
+    hits[std::string ("setRotation-path:") + pathName (path)]++;
     Quat<T> q; q.setRotation (from, to);
     std::string in = std::string (cn) + " from=" + showV (from) + " to=" + showV (to);
+    checkDecision<T> (from, to, q, path, in);
     LQ ql = toL (q);
     bool nan = !(ndot (ql, ql) == ndot (ql, ql));
     // the actual angle between the (rounded) inputs; "antipodal within rounding": pi - angle < 64 eps
@@ -320,6 +453,11 @@ template <class T> static void oppositeLattice ()
         {
             Vec3<T> from ((T) a, (T) b, (T) c), to = from * (T) -m;
             Quat<T> q; q.setRotation (from, to);
+            {
+                int path = classifyPath<T> (from, to);
+                hits[std::string ("opposite-lattice-path:") + pathName (path)]++;
+                checkDecision<T> (from, to, q, path, "lattice from=" + showV (from) + " to=" + showV (to));
+            }
             LV fh = vnorm (toLV (from)), thh = vnorm (toLV (to));
             LQ ql = toL (q);
             L n2 = ndot (ql, ql);
@@ -351,8 +489,11 @@ template <class T> static void slerpChecks (int i)
     int k = (int) (rng () % 12) + 1;
     L tiny = powl (10.0L, -(L) k), th;
     const char* cn;
-    switch (i % 7)
+    bool nearAntipodal = false, bitwise = false;
+    switch (i % 9)
     {
+        case 7: th = PI - powl (10.0L, -(L) (7 + (long) (rng () % 9))); cn = "theta=180-1e-k(k=7..15)"; nearAntipodal = true; break;
+        case 8: th = PI; cn = "bitwise-antipodal(q2=-q1)"; nearAntipodal = bitwise = true; break;
         case 0: th = 0; cn = "theta=0"; break;
         case 1: th = tiny; cn = "theta=1e-k"; break;
         case 2: th = uni (0, PI / 2); cn = "theta<90"; break;
@@ -362,9 +503,17 @@ template <class T> static void slerpChecks (int i)
         default: th = uni (0, 3.0L); cn = "theta-uniform"; break;
     }
     hits[std::string ("slerp-pair:") + cn]++;
-    Quat<T> q2 = roundQ<T> (stepFrom (q1l, th));
+    Quat<T> q2 = bitwise ? -q1 : roundQ<T> (stepFrom (q1l, th));
     LQ q2l = lnorm (toL (q2));
     L theta = lang (q1l, q2l);
+    // tiny-angle branch of sinx_over_x (mirror of ImathMath.h: x * x < epsilon), for the three arguments slerp passes
+    {
+        T a = angle4D (q1, q2);
+        auto tinyB = [] (T x) { return x * x < std::numeric_limits<T>::epsilon (); };
+        hits[tinyB (a) ? "sinx_over_x(a):tiny-branch" : "sinx_over_x(a):sin(x)/x"]++;
+        T th5 = (T) 0.5 * a;
+        hits[tinyB (th5) ? "sinx_over_x(t*a):tiny-branch" : "sinx_over_x(t*a):sin(x)/x"]++;
+    }
     static const L ts[] = {0, 1, 0.5L, 0.25L, 1e-3L, 1 - 1e-3L, -0.1L, -1e-3L, 1 + 1e-3L, 1.1L};
     L eps = (L) std::numeric_limits<T>::epsilon ();
     for (L tl : ts)
@@ -376,7 +525,14 @@ template <class T> static void slerpChecks (int i)
         LQ rl = toL (r);
         char b[64]; snprintf (b, 64, " t=%.17g", (double) t);
         std::string in = std::string (cn) + " q1=" + showQ (q1) + " q2=" + showQ (q2) + b;
-        bool nan = !(ndot (rl, rl) == ndot (rl, rl));
+        bool nan = !(ndot (rl, rl) == ndot (rl, rl)) || std::isinf ((double) ndot (rl, rl));
+        if (nearAntipodal)
+        {
+            // the header excludes q1 = -q2; the property still says "returns unit quaternions": finite and unit is all that is required here
+            check<T> ("slerp-near-antipodal", nan ? (L) INFINITY : fabsl (sqrtl (ndot (rl, rl)) - 1), 1, in, std::string ("slerp:") + (bitwise ? "bitwise-antipodal" : "near-antipodal"));
+            if (!nan && rl.r == 1 && rl.x == 0 && rl.y == 0 && rl.z == 0) hits["slerp-near-antipodal:identity-returned(zero-length-combination)"]++;
+            continue;
+        }
         check<T> ("slerp-unit", nan ? (L) INFINITY : fabsl (sqrtl (ndot (rl, rl)) - 1), 1, in);
         if (nan) continue;
         LQ rn = lnorm (rl);
@@ -421,49 +577,72 @@ template <class T> static void slerpChecks (int i)
     }
 }
 
-template <class T> static void splineChecks ()
+template <class T> static void splineChecks (int variant)
 {
-    // five keys, consecutive 4-D angles in (0.05, 0.6): all in one hemisphere, logs well conditioned
+    // five keys.  class 0: consecutive 4-D angles in (0.05, 0.6), all in one hemisphere, logs well conditioned;
+    // class 1 (hemisphere change): steps in (0.3, 0.9) and K[3] negated, so K[2] ^ K[3] < 0 and K[3] ^ K[4] < 0 (4-D angles pi - step:
+    // slerp is used as is, without the shortest-arc flip, and log (K[2]^-1 K[3]) has an angle beyond 90 degrees);
+    // class 2: a repeated key K[1] = K[0] (zero-length first segment: theta = 0 branches of log / sinx_over_x)
+    bool isF = sizeof (T) == 4;
+    int  cls = variant % 3;
+    const char* cn = cls == 0 ? "one-hemisphere" : cls == 1 ? "hemisphere-change" : "repeated-key";
     LQ kq[5];
-    std::string cls;
-    kq[0] = lnorm (toL (unitQuat<T> (0, cls)));
-    for (int j = 1; j < 5; ++j) kq[j] = stepFrom (kq[j - 1], uni (0.05L, 0.6L));
+    std::string c0;
+    kq[0] = lnorm (toL (unitQuat<T> (0, c0)));
+    for (int j = 1; j < 5; ++j) kq[j] = stepFrom (kq[j - 1], cls == 1 ? uni (0.3L, 0.9L) : uni (0.05L, 0.6L));
+    if (cls == 1) kq[3] = LQ{-kq[3].r, -kq[3].x, -kq[3].y, -kq[3].z};
+    if (cls == 2) kq[1] = kq[0];
     Quat<T> K[5];
     for (int j = 0; j < 5; ++j) K[j] = roundQ<T> (kq[j]);
-    std::string in = "keys=" + showQ (K[0]) + showQ (K[1]) + showQ (K[2]) + showQ (K[3]) + showQ (K[4]);
+    std::string in = std::string (cn) + " keys=" + showQ (K[0]) + showQ (K[1]) + showQ (K[2]) + showQ (K[3]) + showQ (K[4]);
+    hits[std::string ("spline-keys-class:") + cn]++;
     Quat<T> qa = intermediate (K[0], K[1], K[2]), qb = intermediate (K[1], K[2], K[3]);
+    // conditioning of the end-point evaluation: slerp weights ~ 1 / sin (theta) when the segment's 4-D angle is beyond 90 degrees
+    L cond = 1;
+    if (cls == 1) cond = 1 / sinl (lang (lnorm (toL (K[2])), lnorm (toL (K[3]))));
     check<T> ("squad-keys", std::max (qdist (toL (squad (K[1], qa, qb, K[2], (T) 0)), toL (K[1])), qdist (toL (squad (K[1], qa, qb, K[2], (T) 1)), toL (K[2]))), 1, in);
     check<T> ("spline-keys", std::max (qdist (toL (spline (K[0], K[1], K[2], K[3], (T) 0)), toL (K[1])), qdist (toL (spline (K[0], K[1], K[2], K[3], (T) 1)), toL (K[2]))), 1, in);
-    if (sizeof (T) == 8)
+    check<T> ("spline-keys", std::max (qdist (toL (spline (K[1], K[2], K[3], K[4], (T) 0)), toL (K[2])), qdist (toL (spline (K[1], K[2], K[3], K[4], (T) 1)), toL (K[3]))), cond, in);
     {
-        // tangent at the joint K[2]: left segment (K0..K3) at t = 1, right segment (K1..K4) at t = 0;
-        // one-sided second-order finite differences, h = 1e-4: truncation O(h^2) ~ 1e-8, rounding eps/h ~ 2e-12
-        T h = (T) 1e-4;
+        // tangent at the joint K[2]: left segment (K0..K3) at t = 1, right segment (K1..K4) at t = 0.
+        // one-sided 3-point differences D(h) (error c2 h^2 + c3 h^3) at h and h/2, Richardson (4 D(h/2) - D(h)) / 3 (error O(h^3));
+        // done for two base steps.  double: h = 2^-12, 2^-13 (truncation h^3 f''''/24 ~ 1e-9 for f'''' ~ 1e3, rounding 8 eps/h ~ 1e-11);
+        // float: h = 2^-6, 2^-7 (truncation ~1e-4, rounding ~1e-4)
         auto S1 = [&] (T t) { return toL (spline (K[0], K[1], K[2], K[3], t)); };
         auto S2 = [&] (T t) { return toL (spline (K[1], K[2], K[3], K[4], t)); };
-        LQ a0 = S1 (1), a1 = S1 (1 - h), a2 = S1 (1 - 2 * h), b0 = S2 (0), b1 = S2 (h), b2 = S2 (2 * h);
-        L hh = (L) h;
-        LQ dl{(3 * a0.r - 4 * a1.r + a2.r) / (2 * hh), (3 * a0.x - 4 * a1.x + a2.x) / (2 * hh), (3 * a0.y - 4 * a1.y + a2.y) / (2 * hh), (3 * a0.z - 4 * a1.z + a2.z) / (2 * hh)};
-        LQ dr{(-3 * b0.r + 4 * b1.r - b2.r) / (2 * hh), (-3 * b0.x + 4 * b1.x - b2.x) / (2 * hh), (-3 * b0.y + 4 * b1.y - b2.y) / (2 * hh), (-3 * b0.z + 4 * b1.z - b2.z) / (2 * hh)};
-        L speed = std::max (sqrtl (ndot (dl, dl)), sqrtl (ndot (dr, dr)));
-        // err / (eps * scale) with scale = 1e-5 * max(speed, 1e-3) / eps  ->  ratio = |dl - dr| / (1e-5 * speed)
+        auto comb = [] (L a, const LQ& x, L b, const LQ& y, L c, const LQ& z) { return LQ{a * x.r + b * y.r + c * z.r, a * x.x + b * y.x + c * z.x, a * x.y + b * y.y + c * z.y, a * x.z + b * y.z + c * z.z}; };
         L eps = (L) std::numeric_limits<T>::epsilon ();
-        check<T> ("spline-tangent", qdist (dl, dr), 1e-5L * std::max (speed, (L) 1e-3L) / eps, in);
-        hits["spline-tangent:joints-checked"]++;
+        L tol = isF ? 1e-2L : 5e-9L; // clean-tree maxima (seeds 1-3): 1.5e-3 (float, rounding-dominated), 5.7e-10 (double)
+        for (int w = 0; w < 2; ++w)
+        {
+            T h = (T) ldexp (1.0, isF ? -(6 + w) : -(12 + w));
+            L hh = (L) h;
+            LQ a0 = S1 (1), a1 = S1 (1 - h / 2), a2 = S1 (1 - h), a4 = S1 (1 - 2 * h);
+            LQ b0 = S2 (0), b1 = S2 (h / 2), b2 = S2 (h), b4 = S2 (2 * h);
+            LQ dlh = comb (3 / (2 * hh), a0, -4 / (2 * hh), a2, 1 / (2 * hh), a4), dlh2 = comb (3 / hh, a0, -4 / hh, a1, 1 / hh, a2);
+            LQ drh = comb (-3 / (2 * hh), b0, 4 / (2 * hh), b2, -1 / (2 * hh), b4), drh2 = comb (-3 / hh, b0, 4 / hh, b1, -1 / hh, b2);
+            LQ dl = comb (4.0L / 3, dlh2, -1.0L / 3, dlh, 0, dlh), dr = comb (4.0L / 3, drh2, -1.0L / 3, drh, 0, drh);
+            L speed = std::max (sqrtl (ndot (dl, dl)), sqrtl (ndot (dr, dr)));
+            // err / (eps * scale) with scale = tol * max (speed, 1e-3) / eps  ->  ratio = |dl - dr| / (tol * speed)
+            char b[48]; snprintf (b, 48, " h=2^%d", isF ? -(6 + w) : -(12 + w));
+            check<T> ("spline-tangent", qdist (dl, dr), tol * std::max (speed, (L) 1e-3L) * cond / eps, in + b, std::string ("spline-tangent:") + cn);
+        }
+        hits[std::string ("spline-tangent:joints-checked:") + cn]++;
     }
 }
 
 template <class T> static void runAll (int n)
 {
     oppositeLattice<T> ();
+    guardSweep<T> (std::max (400, n / 2));
     for (int i = 0; i < n; ++i)
     {
         unitQuatChecks<T> (i);
         generalQuatChecks<T> ();
-        axisAngleChecks<T> ();
+        axisAngleChecks<T> (i);
         setRotationChecks<T> (i);
         slerpChecks<T> (i);
-        if (i % 4 == 0) splineChecks<T> ();
+        if (i % 4 == 0) splineChecks<T> (i / 4);
     }
 }
 
